@@ -22,7 +22,15 @@ pub struct Inst<G: Cv> {
 pub fn pool<G: Cv>(env: &Env<G>, seed: u64) -> Vec<Inst<G>> {
     let mut out = vec![];
     let mk = |name: &str, prog: &Program, comms: &[G], bytes: &[u8]| -> Inst<G> {
-        let proof = R1CSProof::<G>::from_bytes(bytes).expect("pool proof decodes");
+        let proof = match R1CSProof::<G>::from_bytes(bytes) {
+            Ok(p) => p,
+            Err(_) => {
+                // the decoder rejects an encoding the pool needs (C11's business): the run cannot
+                // build its pool on this curve
+                eprintln!("machinery: pool member {} does not decode on {} (precondition of C07 fails; C11 reports decoding)", name, G::NAME);
+                std::process::exit(2);
+            }
+        };
         let ok = program::verify::<G>(prog, &env.pc, &env.bp, seed, Dev::None, comms, &proof, program::LABEL).result.is_ok();
         Inst { name: name.to_string(), prog: prog.clone(), comms: comms.to_vec(), proof, ok }
     };
